@@ -1,5 +1,6 @@
 import PgFdr.Proofs.C01
 import PgFdr.Proofs.C06
+import PgFdr.Proofs.Pipeline
 
 /-!
 # C01 — protein-group q-values are the monotone decoy-based FDR estimate
@@ -182,5 +183,148 @@ example : (C06.fromProteinGroups exGroups
       exScores [1/2, 2/3, 2/3, 1] none false).map (fun rows => rows.map (fun r => (r.proteins, r.score, r.qValue))) =
     .ok [(["A"], 5, 1/2), (["REV__B"], 4, 2/3), (["REV__C", "rev_D"], 4, 2/3)] := by
   decide +kernel
+
+/-! ## The same statements for the whole inference function
+
+`PgFdr.Pipeline.run cfg inp` (`Model/Pipeline.lean`) is the composed executable model of
+`get_protein_group_results`: grouping → [razor] → evidence → competition → FDR → report, with the rescue
+pass for `rescued_subset`.  It is what the driver op `pipeline` executes and what `harness/pipeline.py`
+compares, value by value, with the real function.  The theorems below hold for EVERY configuration
+`cfg` (grouping no / subset / rescued subset / pseudo-gene × razor × picked / picked-group / classic),
+every input and every recorded parameter (shuffles, cut map, float scores, rescue cutoff).
+`r.final` is the pass whose rows are reported (`r.pass2.getD r.pass1`); `Pipeline.finalItems inp r` is the
+`zip(groups, evidence, scores)` handed to its `do_competition`, `finalShuffle1/2` the two recorded
+shuffles (`Proofs/Pipeline.lean`). -/
+
+/-- "When the protein groups that survive competition are ranked by decreasing score": the ranking of the
+    reported pass is the outcome of `do_competition` (C02) on the zipped groups, evidence and scores of
+    that pass, it is not empty, and its scores never increase down the ranking -/
+theorem pipeline_ranked_nonincreasing (cfg : Pipeline.Config) (inp : Pipeline.Input) (r : Pipeline.Result)
+    (h : Pipeline.run cfg inp = .ok r) :
+    r.final.ranking = C02.doCompetition cfg.mode (Pipeline.finalItems inp r)
+      (Pipeline.finalShuffle1 inp r) (Pipeline.finalShuffle2 inp r) ∧
+    r.final.ranking ≠ [] ∧
+    (r.final.ranking.map (·.score)).Pairwise (· ≥ ·) := by
+  obtain ⟨hp, -⟩ := Pipeline.final_spec cfg inp r h
+  refine ⟨hp.ranking, hp.ranking_ne, ?_⟩
+  rw [List.pairwise_map, hp.ranking]
+  exact C02.ranked_nonincreasing cfg.mode _ _ _
+
+/-- which ranked groups enter the estimate: all of them, unless a recorded score is the sentinel `-100.0`
+    (which `do_competition` gives only to groups without evidence, and those are never ranked) -/
+theorem pipeline_ranked_all (r : Pipeline.Result)
+    (hs : ∀ x ∈ r.final.ranking, x.score ≠ -100) :
+    ranked (r.final.ranking.map (·.group)) (r.final.ranking.map (·.score)) = r.final.ranking.map (·.group) := by
+  obtain ⟨n, h1, -, -, -, h5⟩ := ranked_eq_take (r.final.ranking.map (·.group)) (r.final.ranking.map (·.score))
+  rw [h1]
+  rcases h5 with h5 | h5
+  · rw [h5]; simp
+  · exfalso
+    have hm := List.mem_of_getElem? h5
+    obtain ⟨x, hx, hxs⟩ := List.mem_map.mp hm
+    exact hs x hx hxs
+
+/-- "each group's q-value equals the minimum, over all ranks at or below it, of (decoy groups so far + 1)
+    / (target groups so far + 1), where a group counts as decoy only if all of its proteins are decoys.
+    Hence q-values never decrease down the ranking": for the ranked groups `G` of the reported pass of ANY
+    successful call there is one reported estimate and one q-value per ranked group; the estimate at rank
+    `k` is (decoys among the first k+1 groups + 1)/(targets among them + 1) with the executable
+    `isDecoyGroup = helpers.is_decoy`; every q-value is a lower bound of the estimates at all ranks at or
+    below it and is attained at one of them; and q-values are monotone -/
+theorem pipeline_qvals_spec (cfg : Pipeline.Config) (inp : Pipeline.Input) (r : Pipeline.Result)
+    (h : Pipeline.run cfg inp = .ok r) :
+    let G := ranked (r.final.ranking.map (·.group)) (r.final.ranking.map (·.score))
+    G ≠ [] ∧ r.final.fdrs.length = G.length ∧ r.final.qvals.length = G.length ∧
+    (∀ k, k < G.length → r.final.fdrs[k]? = some (estimate isDecoyGroup G k) ∧
+      countP isDecoyGroup G k + countP (fun g => !isDecoyGroup g) G k = k + 1) ∧
+    (∀ (i : Nat) (v : Rat), r.final.qvals[i]? = some v →
+      (∀ j, i ≤ j → j < G.length → v ≤ estimate isDecoyGroup G j) ∧
+      (∃ j, i ≤ j ∧ j < G.length ∧ v = estimate isDecoyGroup G j)) ∧
+    (∀ (i j : Nat) (vi vj : Rat), i ≤ j → r.final.qvals[i]? = some vi → r.final.qvals[j]? = some vj → vi ≤ vj) := by
+  intro G
+  obtain ⟨hp, -⟩ := Pipeline.final_spec cfg inp r h
+  have hq := hp.fdrs
+  obtain ⟨hne, hf, -⟩ := (calc_ok_iff _ _ _ _ _).mp hq
+  obtain ⟨hql, hqs⟩ := qvals_spec _ _ _ _ hq
+  refine ⟨?_, ?_, hql, ?_, hqs, ?_⟩
+  · intro h0; exact hne (by simpa [G] using h0)
+  · rw [hf, fdrs_length]
+  · intro k hk
+    exact fdrs_getElem _ _ _ _ hq k hk
+  · intro i j vi vj hij hi hj
+    exact qvals_monotone _ _ _ _ hq i j vi vj hij hi hj
+
+/-- "for every threshold t, the ranked groups with q-value <= t satisfy (decoys + 1) / (targets + 1) <= t":
+    for the reported pass of any successful call the groups accepted at `t` are a prefix `S` of the ranking
+    and, unless `S` is empty, (decoy groups in S + 1) / (target groups in S + 1) ≤ t -/
+theorem pipeline_threshold_sound (cfg : Pipeline.Config) (inp : Pipeline.Input) (r : Pipeline.Result)
+    (h : Pipeline.run cfg inp = .ok r) (t : Rat) :
+    let G := ranked (r.final.ranking.map (·.group)) (r.final.ranking.map (·.score))
+    let S := ((G.zip r.final.qvals).filter (fun gq => decide (gq.2 ≤ t))).map (·.1)
+    S = G.take S.length ∧
+    (S ≠ [] →
+      (((S.filter isDecoyGroup).length + 1 : Nat) : Rat) /
+        (((S.filter (fun g => !isDecoyGroup g)).length + 1 : Nat) : Rat) ≤ t) := by
+  obtain ⟨hp, -⟩ := Pipeline.final_spec cfg inp r h
+  exact threshold_sound _ _ _ _ hp.fdrs t
+
+/-- "Reported rows carry exactly the score and q-value computed on that ranking, in the same relative
+    order, even when other ranked groups are withheld from the report": the table `r.rows` returned by any
+    successful call comes from a strictly increasing list `idx` of ranks of the reported pass, one per
+    row; row `k` lists proteins of the ranked group at rank `idx[k]` (never a placeholder, never a rank
+    behind a sentinel score) and carries exactly the score of that ranked group and the q-value computed
+    for that rank -/
+theorem pipeline_report_alignment (cfg : Pipeline.Config) (inp : Pipeline.Input) (r : Pipeline.Result)
+    (h : Pipeline.run cfg inp = .ok r) :
+    ∃ idx : List Nat, idx.Pairwise (· < ·) ∧ idx.length = r.rows.length ∧
+      ∀ (k i : Nat), idx[k]? = some i →
+        ∃ (row : C06.RowData) (x : C02.Item), r.rows[k]? = some row ∧ r.final.ranking[i]? = some x ∧
+          i < (ranked (r.final.ranking.map (·.group)) (r.final.ranking.map (·.score))).length ∧
+          row.score = x.score ∧ r.final.qvals[i]? = some row.qValue ∧
+          isObsolete x.group = false ∧ (∀ p ∈ row.proteins, p ∈ x.group) ∧ row.proteins ≠ [] := by
+  obtain ⟨hp, hrows⟩ := Pipeline.final_spec cfg inp r h
+  have hr := hp.rows
+  rw [← hrows] at hr
+  obtain ⟨idx, h1, h2, h3⟩ := report_alignment _ _ _ _ _ _ _ _ hp.fdrs hr
+  refine ⟨idx, h1, h2, ?_⟩
+  intro k i hk
+  obtain ⟨row, g, s, v, hrow, hg, hs, hv, hrs, hrq, ho, hmem, hne⟩ := h3 k i hk
+  have hi : i < (ranked (r.final.ranking.map (·.group)) (r.final.ranking.map (·.score))).length :=
+    (List.getElem?_eq_some_iff.mp hg).1
+  rw [ranked_getElem? _ _ i hi, List.getElem?_map] at hg
+  rw [List.getElem?_map] at hs
+  cases hx : r.final.ranking[i]? with
+  | none => rw [hx] at hg; simp at hg
+  | some x =>
+    rw [hx] at hg hs
+    simp only [Option.map_some, Option.some.injEq] at hg hs
+    subst hg
+    exact ⟨row, x, hrow, rfl, hi, by rw [hrs, hs], by rw [hrq]; exact hv, ho, hmem, hne⟩
+
+/-! Non-vacuity of the pipeline theorems: two calls that succeed (`Proofs/Pipeline.lean`, `demo_run1`,
+`demo_run2`) — protein-level picking without grouping (one pass), and the flagship method (rescued subset
+grouping + picked-group competition: two passes, a placeholder group in the second competition) — on a
+target `A` (score 3) and a decoy `REV__B` (score 2): q-values (0+1)/(1+1) = 1/2 and (1+1)/(1+1) = 1.
+`mergeSort` does not reduce in the kernel, so the recorded shuffles are chosen such that both sorts find
+their input sorted; every other stage is evaluated by the kernel. -/
+
+example : ∃ r, Pipeline.run Pipeline.demoCfg1 Pipeline.demoInp1 = .ok r ∧
+    r.final.ranking.map (·.score) = [3, 2] ∧ r.final.qvals = [1/2, 1] ∧
+    r.rows.map (fun d => (d.proteins, d.score, d.qValue)) = [(["A"], 3, 1/2), (["REV__B"], 2, 1)] := by
+  obtain ⟨r, h, h1, h2, h3, -⟩ := Pipeline.demo_run1
+  exact ⟨r, h, by rw [h1]; rfl, h2, by rw [h3]; rfl⟩
+
+example : ∃ r, Pipeline.run Pipeline.demoCfg2 Pipeline.demoInp2 = .ok r ∧ r.rescued = true ∧
+    r.final.compGroups = [["A"], ["REV__B"], ["OBSOLETE__A"]] ∧
+    r.final.ranking.map (·.group) = [["A"], ["REV__B"]] ∧ r.final.qvals = [1/2, 1] ∧
+    r.rows.map (fun d => (d.proteins, d.score, d.qValue)) = [(["A"], 3, 1/2), (["REV__B"], 2, 1)] := by
+  obtain ⟨r, h, h1, h2, h3, h4, h5⟩ := Pipeline.demo_run2
+  exact ⟨r, h, h5, h4, by rw [h1]; rfl, h2, by rw [h3]; rfl⟩
+
+/-- hypothesis of `pipeline_ranked_all`: no ranked score is the sentinel -/
+example : ∃ r, Pipeline.run Pipeline.demoCfg2 Pipeline.demoInp2 = .ok r ∧ ∀ x ∈ r.final.ranking, x.score ≠ -100 := by
+  obtain ⟨r, h, h1, -⟩ := Pipeline.demo_run2
+  refine ⟨r, h, ?_⟩
+  rw [h1]; decide +kernel
 
 end PgFdr.C01
